@@ -147,6 +147,9 @@ func (Engine) Run(c *choice.Src, o engine.Opt) (out engine.Out) {
 		thrmodel.Share{Bytes: append([]byte(nil), pool[2%n].Bytes[:47]...), Kind: "len47", TrueOf: -1},
 		thrmodel.Share{Bytes: []byte{}, Kind: "len0", TrueOf: -1},
 		thrmodel.Share{Bytes: nil, Kind: "nil", TrueOf: -1})
+	nc := make([]byte, 48) // the infinity header followed by a non-zero byte: not an encoding of any point
+	nc[0], nc[47] = 0xC0, byte(1+rnd.Intn(255))
+	pool = append(pool, thrmodel.Share{Bytes: nc, Kind: "infinity-noncanonical", TrueOf: -1})
 	me := c.Choose(n, "me")
 	env := &thrmodel.Env{N: n, T: t, Pool: pool, GroupSig: hex.EncodeToString(gsig), MyShare: hex.EncodeToString(pool[me].Bytes)}
 	participant := c.Bool(1, 2, "participant")
